@@ -17,14 +17,6 @@ import (
 
 const c07Index = "c07"
 
-// c07FindingEP is the short name of the known finding "search / insert while the entry point is
-// soft-deleted" (see /verif/replays/C07/finding_deleted-entrypoint.json).
-const c07FindingEP = "deleted-entrypoint"
-
-// c07FindingVac: vacuum re-elects the first live node as entry point and lowers maxLevel to that node's
-// level (see /verif/replays/C07/finding_vacuum-entrypoint-level.json).
-const c07FindingVac = "vacuum-entrypoint-level"
-
 // c07FindingPrune: Index.Add prunes a full neighbour list with selectNeighbors on an UNSORTED candidate list
 // (see /verif/replays/C07/finding_add-prune-unsorted.json).
 const c07FindingPrune = "add-prune-unsorted"
@@ -185,11 +177,14 @@ func (g *c07Graph) checkStructure(afterVacuum bool) string {
 			}
 		}
 	}
-	if g.Live+g.Dead == 0 {
+	if g.Live == 0 {
+		// no live node: an empty graph (maxLevel -1) or one whose entry point is a soft-deleted node
 		if afterVacuum && g.MaxLevel != -1 {
 			return fmt.Sprintf("structure: graph is empty after vacuum but maxLevel=%d", g.MaxLevel)
 		}
-		return ""
+		if g.MaxLevel < 0 {
+			return ""
+		}
 	}
 	if g.MaxLevel < 0 {
 		return fmt.Sprintf("structure: graph holds %d live + %d soft-deleted nodes but maxLevel=%d (search returns nothing)", g.Live, g.Dead, g.MaxLevel)
